@@ -267,16 +267,14 @@ class SSHConfig:
             ):
                 continue
             for key, value in context["config"].items():
-                if key not in options:
-                    # Create a copy of the original value,
-                    # else it will reference the original list
-                    # in self._config and update that value too
-                    # when the extend() is being called.
+                if key == "identityfile":
+                    # Accumulate into a fresh list (never the one stored in
+                    # self._config), skipping values already obtained -
+                    # whether from an earlier block or from this one.
+                    known = options.setdefault(key, [])
+                    known.extend(x for x in value if x not in known)
+                elif key not in options:
                     options[key] = value[:] if value is not None else value
-                elif key == "identityfile":
-                    options[key].extend(
-                        x for x in value if x not in options[key]
-                    )
         if final:
             # Expand variables in resulting values
             # (besides 'Match exec' which was already handled above)
